@@ -45,6 +45,7 @@ type v06Part struct {
 	Ppaused  bool     `json:"ppaused"`
 	Ro       bool     `json:"ro"`
 	Roeff    bool     `json:"roeff"`
+	Rec      bool     `json:"rec"`
 }
 
 type v06Proto struct {
@@ -265,7 +266,10 @@ func v06Streams(s *Server) map[string]v06Stream {
 				continue
 			}
 			leader, lepoch := p.GetLeader()
-			ps[i] = v06Part{Replicas: v06Sorted(p.GetReplicas()), Isr: v06Sorted(p.GetISR()), Leader: leader,
+			p.mu.RLock()
+			rec := p.recovered
+			p.mu.RUnlock()
+			ps[i] = v06Part{Rec: rec, Replicas: v06Sorted(p.GetReplicas()), Isr: v06Sorted(p.GetISR()), Leader: leader,
 				Lepoch: lepoch, Epoch: p.GetEpoch(), Paused: p.IsPaused(), Ppaused: p.Partition.GetPaused(),
 				Ro: p.Partition.GetReadonly(), Roeff: p.IsReadonly()}
 		}
